@@ -55,6 +55,7 @@ OPS = {
     'calc_fint': lambda it, p, env: it.call(it.getattr(p, 'calc_fint'), [env['c']], dict(silent=True)),
     'calc_kT': lambda it, p, env: it.call(it.getattr(p, 'calc_kT'), [], dict(c=env['c'], silent=True)),
 }
+SAVE = lambda it, p, env: it.call(it.getattr(p, 'save'), [], {})
 CHANGES = {
     'a': lambda p: p.attrs.__setitem__('a', real('a_new')),
     'offset': lambda p: p.attrs.__setitem__('offset', real('d_new')),
@@ -93,7 +94,7 @@ def run_seq(it, geom, seq, changed_before_last=None, fresh_with_change=None):
             if changed_before_last and k == len(seq) - 1:
                 CHANGES[changed_before_last](p)
             try:
-                r = OPS[op](it, p, env)
+                r = (SAVE if op == 'save' else OPS[op])(it, p, env)
             except SymRaise as e:
                 e.where = (k, op)
                 raise
@@ -139,6 +140,25 @@ except Exception as e:
     return rp
 
 
+def check_after_save(led, it, geom, ops=('calc_k0', 'calc_kM', 'calc_kG0', 'calc_fext')):
+    # (d) the same with a checkpoint (Panel.save) between the two calls; pickle.dump is a no-op of the executor (trusted: pickling
+    #     does not change the object; Panel defines no __getstate__/__reduce__)
+    it.contracts['builtins.open'] = lambda itp, a_, kw_: Opaque('file', name=str(a_[0])[:40])
+    led.trust('Panel.save: open() returns an opaque file object and pickle.dump does not change the pickled object (Panel defines no __getstate__ / __reduce__)')
+    for op, ch in itertools.product(ops, ('plyt', 'stack', 'a', 'Nxx')):
+        outs = run_seq(it, geom, ['calc_k0', op, 'save', op], changed_before_last=ch)
+        want_o = run_seq(it, geom, ['calc_k0', op], fresh_with_change=ch)
+        name = '%s%s[%s]/follows-a-change-of-%s-made-after-Panel.save' % (PF, op, geom, ch)
+        want = sorted(set(o[1] if o[0] == 'ok' else ('raise', o[1]) for o in want_o), key=repr)
+        got = sorted(set(o[1] if o[0] == 'ok' else ('raise', o[1]) for o in outs), key=repr)
+        if got == want:
+            led.ok(name, PF + op)
+        else:
+            led.fail(name, PF + op, {'meaning': 'after Panel.save() and a change of %s, %s does not return what a fresh object with the new value returns' % (ch, op),
+                                    'raises_in_history': [o[1:] for o in outs if o[0] == 'raise'][:2]},
+                     signature='stale-after-save:%s:%s' % (op, ch), replay=replay_after_save(op, ch))
+
+
 def check_panel_history(led):
     it, calls = py_panel.mk()
     led.function(PF + '(all public evaluation methods)')
@@ -181,6 +201,7 @@ def check_panel_history(led):
             else:
                 led.fail(name, PF + op, {'meaning': 'after %s is changed, %s does not return what a fresh object with the new value returns' % (ch, op)},
                          signature='stale:%s:%s' % (op, ch))
+        check_after_save(led, it, geom)
     # aerodynamic matrix of a panel whose flow is given by Mach number, speed and density (beta, gamma derived on request)
     from ..pysym import to_z3
     AERO[0] = 'mach'
@@ -205,6 +226,35 @@ def check_panel_history(led):
         it.facts[:] = saved
     led.solver_time('z3-feasibility', it.solver_time)
     led.extra['sequences'] = led.extra.get('sequences', 0) + len(OPS) * len(OPS) * 2 + 8
+
+
+def replay_after_save(op, ch):
+    from ..pyreplay import run_real
+    script = '''
+import numpy as np, os, tempfile
+from compmech.panel import Panel
+os.chdir(tempfile.mkdtemp())
+def new():
+    p = Panel(a=1., b=0.5, stack=[0, 90, 90, 0], plyt=1.25e-4, laminaprop=(142.5e9, 8.7e9, 0.28, 5.1e9, 5.1e9, 5.1e9), mu=1500., m=4, n=4)
+    p.Nxx = -1.; p.forces = [[0.5, 0.25, 0., 0., 1.]]; p.name = 'chk'
+    return p
+def change(p):
+    ch = payload['ch']
+    if ch == 'plyt': p.plyt = 2.e-4
+    elif ch == 'stack': p.stack = [0, 90]
+    elif ch == 'a': p.a = 1.3
+    else: p.Nxx = -2.
+def ev(p):
+    r = getattr(p, payload['op'])(silent=True)
+    return np.asarray(r.todense()) if hasattr(r, 'todense') else np.asarray(r)
+p = new(); p.calc_k0(silent=True); ev(p); p.save(); change(p); got = ev(p)
+q = new(); change(q); q.calc_k0(silent=True); ref = ev(q)
+out = {'max_abs_difference_to_a_fresh_panel': float(abs(got - ref).max()), 'scale': float(abs(ref).max())}
+'''
+    r = run_real(script, {'op': op, 'ch': ch})
+    r['reproduced'] = bool(r.get('raised') or (r.get('max_abs_difference_to_a_fresh_panel') or 0) > 1e-9 * max(r.get('scale') or 0, 1e-300))
+    r['input'] = 'Panel(a=1,b=.5,4 plies): calc_k0, %s, save(), change of %s, %s  versus a fresh panel with the new value' % (op, ch, op)
+    return r
 
 
 def replay_kA_mach(seq):
